@@ -23,7 +23,7 @@ type c04obs struct {
 
 func runC04(cfg *Config) *Report {
 	rep := newReport()
-	rep.Rule = "pairs of values of the types *GT{A,B *GT; S *string; L []*GT}, *string, []*GT (nil pointers, nil/empty slices, constants equal to a zero-valued placeholder, v an abstraction of u in half the cases) x acyclic start bindings installed with State.Set (var-var chains, partially bound structs) x both placeholder policies (zero-valued default, named via VarCreator); non-trivial = both sides contain a variable or a bound variable is dereferenced; distinct by printed case"
+	rep.Rule = "pairs of values of the types *GT{A,B *GT; S *string; L []*GT}, *string, []*GT (nil pointers, nil/empty slices, constants equal to a zero-valued placeholder, v an abstraction of u in half the cases) x acyclic start bindings installed with State.Set (var-var chains, partially bound structs) x both placeholder policies (zero-valued default, named via VarCreator) x memory layout (every node fresh / equal sub-values one object and list prefixes re-slices of one backing array); non-trivial = both sides contain a variable or a bound variable is dereferenced; distinct by printed case"
 	cf := newCaseFile("From Coq Require Import List NArith ZArith.\nFrom GMK Require Import Term Unify CorrBase Corr01 Corr02 Corr04.", "case04", "check04")
 	r := newRand(cfg.Seed)
 	for i := 0; i < cfg.N; i++ {
@@ -32,7 +32,8 @@ func runC04(cfg *Config) *Report {
 		for k := range sorts {
 			sorts[k] = pick(r, []string{"t", "t", "s"})
 		}
-		gen := &gvGen{r: r, sorts: sorts}
+		gen := &gvGen{r: r, sorts: sorts, trunc: true}
+		share := r.Intn(2) == 0 // identical sub-values are one Go object, list prefixes are re-slices of one backing array
 		// start bindings: variable k may be bound to a value mentioning only later variables (acyclic)
 		type bind struct {
 			k int
@@ -68,9 +69,13 @@ func runC04(cfg *Config) *Report {
 			start = append(start, micro.SubPair{Key: uint64(b.k), Value: b.v.toTerm()})
 		}
 		desc := fmt.Sprintf("EqualO u=%s v=%s start=%s (variables %v)", showTerm(u.toTerm()), showTerm(v.toTerm()), showSubst(start), sorts)
+		if share {
+			desc += " [equal sub-values shared in memory, list prefixes share a backing array]"
+		}
 		var obs [2]c04obs
 		for pol := 0; pol < 2; pol++ {
 			w := newWorld(pol == 1, sorts)
+			w.share = share
 			st := w.st
 			for _, b := range binds {
 				key, _ := st.CastVar(w.ptrs[b.k])
@@ -78,13 +83,21 @@ func runC04(cfg *Config) *Report {
 			}
 			before := showSubst(w.bindings(st))
 			var goal gomini.Goal
+			var gu, gw any
+			if len(showTerm(u.toTerm())) >= len(showTerm(v.toTerm())) { // the larger side first, so that the other can alias it
+				gu = w.toGo(u)
+				gw = w.toGo(v)
+			} else {
+				gw = w.toGo(v)
+				gu = w.toGo(u)
+			}
 			switch so {
 			case "t":
-				goal = gomini.EqualO(w.toGo(u).(*GT), w.toGo(v).(*GT))
+				goal = gomini.EqualO(gu.(*GT), gw.(*GT))
 			case "s":
-				goal = gomini.EqualO(w.toGo(u).(*string), w.toGo(v).(*string))
+				goal = gomini.EqualO(gu.(*string), gw.(*string))
 			default:
-				goal = gomini.EqualO(w.toGo(u).([]*GT), w.toGo(v).([]*GT))
+				goal = gomini.EqualO(gu.([]*GT), gw.([]*GT))
 			}
 			states, how := runGoal(goal, st, -1, 5*time.Second)
 			o := c04obs{n: len(states), how: how}
@@ -109,6 +122,9 @@ func runC04(cfg *Config) *Report {
 		rep.CaseObs = append(rep.CaseObs, obsStr)
 		rep.sample(desc + " => " + obsStr)
 		rep.hist(fmt.Sprintf("sort=%s states=%d", so, o.n))
+		if share {
+			rep.hist("layout=shared")
+		}
 		// ---- direct oracles
 		if obs[0].n != obs[1].n || obs[0].canon != obs[1].canon {
 			rep.violate(i, "depends-on-placeholder-contents", desc, obsStr)
